@@ -14,6 +14,10 @@ if rnd == "c":
     extra = """
 Additional guidance for this round: two earlier rounds already produced (1) direct changes at the obvious code sites for this property and (2) changes in shared helpers / caches / first-use order / multiple inheritance / slotted and abstract classes / class-name lookup caches / source-registry handling. Do NOT repeat those. Look for something of a different kind, for example: a change that only alters a rarely inspected part of a result (a returned flag, the type of a container, object identity where equality still holds, ordering among equal elements, which exception type is raised); an off-by-one or boundary effect that needs a particular size (exactly 0, 1, 2, 10, 11 elements; very long or empty strings; depth > 5); an interaction with a configuration switch (ID_DIGEST_SIZE, RUNTIME_TYPE_CHECK, TRACE_LOGGING) or with Python-level features of the node model (fields with default_factory, keyword-only vs positional fields, properties whose values are unusual but legal such as negative numbers, empty tuples, nested tuples, enums); an effect that needs the same operation to be applied twice, or two different operations in a particular order; effects on nodes that are detached, shared between two parents, or content-identical twins. Each change must still be a plausible refactoring / optimisation / cleanup and must keep all 244 tests passing.
 """
+elif rnd == "f":
+    extra = """
+Additional guidance for this round: five earlier rounds produced structural changes (helpers, caches, first-use order, inheritance shapes, configuration switches, unusual values and class features, deep trees, copies, user dunders, error paths, optional parameters, user subclasses of library classes, A-then-B interactions, registry / module state). Do NOT repeat those. This round is about SMALL, LOCAL slips - the kind a careful reviewer still misses - in code whose tests exercise only one side of a condition: a comparison operator off by one (`<` / `<=`, `>` / `>=`, `==` / `is`), `and` / `or` or `any` / `all` swapped in a compound condition where the existing tests make both operands agree, a truthiness test where `is None` / `is not None` is needed (think of index 0, empty string, empty tuple, 0.0, False as legitimate values: `x or default`, `if index:`), a `break` / `return` / `continue` that leaves a loop one element early or only when an earlier element had some property, swapped or mis-ordered arguments of the same type, a default argument value changed, a sort key or tie-break changed, a separator / format string in a digest, key, fqn or xpath changed so that two particular values collide or one particular value is mis-parsed, an off-by-one in slicing (`[1:]`, `[:-1]`, `[::-1]`), `min` / `max` or start / end confused, a dict / set used where order or multiplicity matters, `zip` truncating silently (strict= dropped) on unequal lengths, an exception type narrowed or widened in an `except`, an `else` branch of a `for` / `try` misplaced. For each change, first find a condition or expression in the relevant code for which the existing tests only ever see one outcome, then change it so that only the unseen outcome differs. Each change must keep all 244 tests passing.
+"""
 elif rnd == "e":
     extra = """
 Additional guidance for this round: four earlier rounds already produced (1) direct changes at the obvious code sites, (2) shared helpers / caches / first-use order / multiple inheritance / slotted and abstract classes, (3) boundary sizes, configuration switches, one-shot iterators, repeated calls, detached / shared / twin nodes, (4) uncommon spellings, unusual legal values (bytes, nested frozensets, str-mixin enums, -0.0), trees deeper than the recursion limit, deep copies, user-defined __eq__/__hash__/__len__, Any-typed properties holding nodes, subclasses in other modules, re-declared built-in fields, odd field names, error paths inside user callbacks, re-used visitor objects. Do NOT repeat those. Look for something of yet another kind, for example: a rarely used OPTIONAL PARAMETER of an API named in the statement (strict=, default=, exact_type=, skip_self=, sort_keys=, check_ancestor=, relative_to=, indent=, as_detached_clone=, ensure_unique_id=, create_detached=, mashumaro_dialect=, and the like) whose non-default value takes a slightly different code path; user SUBCLASSES of library classes other than nodes (a subclass of Origin / Source / Position / CodeOrigin, of Tree, of a visitor with its own __init__, of NodeMatcher) or node models using dataclass features (InitVar, ClassVar, default_factory, kw_only=True on the decorator, positional required fields after inherited defaults, field(hash=False), field(repr=False), field(metadata=...)); interactions between TWO different public operations where only the second one misbehaves (A then B, e.g. serialize then match, duplicate then transform, Tree then replace, xpath then pattern on the same text/objects); module-level state that is initialised lazily or at import (type registry TYPES, Source registry, caches) after another module registered classes with the same simple name; results that are right as a set but wrong in multiplicity or order; generators that are consumed partially and resumed after another call; equality between objects of different but related classes (subclass vs base, GeneratedCodeOrigin vs CodeOrigin, list vs tuple). Each change must still be a plausible refactoring / optimisation / cleanup and must keep all 244 tests passing.
